@@ -317,7 +317,7 @@ def c16(ctx):
                                  (b["why"] == "draw reported too early" and b.get("x", {}).get("occurred", 0) < 3)], {"GEnding"})
     # the Game's own move counter (what the game loops compare with their move limit)
     props_game.absorb_game(ctx, [b for b in gb if "gfm" in b.get("diff", []) or "fm" in b.get("diff", []) or "hm" in b.get("diff", [])],
-                           {"Coord", "CoordBatch", "GToggle", "GEnding", "EngineMove", "GLabels"})
+                           {"Coord", "CoordBatch", "GToggle", "GEnding", "EngineMove", "GLabels"}, own=("gfm",))
     ctx.evaluations += ev + ev2 + gev
     ctx.nontrivial += hist
     ctx.rule = ("design: ClockInvariant on MC_Engine; B2: games steered into long reversible stretches with occasional pawn moves (330-700 plies, clocks also started at 40-100 so that "
